@@ -1,7 +1,8 @@
 import GlmVerif.Spec.C10
-import GlmVerif.Gen.C10
-/-! table check of family `invtr` against the model generated from /repo (kernel evaluation) -/
+import GlmVerif.Gen.C10.invtr
+/-! table check of family `invtr` against the model of its units generated from /repo (kernel evaluation) -/
 namespace Glm.Props.C10
 open Glm Glm.Spec.C10 Glm.Gen.C10
-theorem invtr_ok : f_invtr.ok lookup = true := by decide +kernel
+set_option maxHeartbeats 4000000 in
+theorem invtr_ok : f_invtr.ok (fun _ ks => invtr_L ks) = true := by decide +kernel
 end Glm.Props.C10
